@@ -231,6 +231,35 @@ pub fn run_c02(a: &Args) {
     finish("c02", a, cases);
 }
 
+/// C12 at the connection level: Transfer-intent logins presenting cookies of ANOTHER name that are valid, expired,
+/// bound to another address or signed with another secret; the authentication service must be asked about the claimed name
+pub fn auth_name_cases(rng: &mut Rng, n: usize) -> Vec<Case> {
+    let mut cases = vec![];
+    for i in 0..n {
+        let mut plan = gen_plan(rng);
+        plan.intent = 3;
+        plan.claimed_name = rng.pick(&["Mallory", "a&serverId=0", "Ünï", "x y"]).to_string();
+        let secret = Some(rng.bytes(24));
+        plan.routing = routing_steps(rng);
+        let v0 = Verdicts0::get(rng, &plan);
+        let mut sc = scenario(rng, &plan, secret.clone(), vec![], v0);
+        let (ts, addr, key): (u64, String, Vec<u8>) = match i % 4 {
+            0 => (now() - 21_600 - 300, sc.client_addr.to_string(), secret.clone().unwrap()),
+            1 => (now(), "203.0.113.77:4000".to_string(), secret.clone().unwrap()),
+            2 => (now(), sc.client_addr.to_string(), b"some other secret".to_vec()),
+            _ => (now(), sc.client_addr.to_string(), secret.clone().unwrap()),
+        };
+        let cname = rng.pick(&["Hydrofin", "Hydro fin&serverId=0", "Mallory"]).to_string();
+        plan.auth_cookie = Some(oracle::sign(&key, &cookie_json(ts, &addr, &cname, 0xc00c1e, None, serde_json::json!([]))));
+        sc.steps = render(&plan, true);
+        let o = exec(&sc);
+        let f = facts(&sc, &plan, true);
+        let why = oracle::c01(&f, &o);
+        cases.push(case_of(&o, why, format!("connection:{}", ["expired-cookie", "other-address-cookie", "other-secret-cookie", "valid-cookie"][i % 4])));
+    }
+    cases
+}
+
 // ------------------------------------------------------------------------------------------ C03
 pub fn run_c03(a: &Args) {
     let mut rng = Rng::new(a.seed);
@@ -249,7 +278,8 @@ pub fn run_c03(a: &Args) {
         if n % 3 == 0 {
             // the real FixedLocalizationAdapter with tables for some of region / language / default
             let mut tables = vec![];
-            for l in ["de_DE", "de", "en_us", "en", "a_b", "a"] { if rng.chance(1, 2) { let mut kv = vec![]; if rng.chance(3, 4) { kv.push(("disconnect_no_target".to_string(), format!("no target [{l}]"))); } if rng.chance(3, 4) { kv.push(("disconnect_timeout".to_string(), format!("timeout [{l}]"))); } tables.push((l.to_string(), kv)); } }
+            // plain (non-JSON) messages, many with multi-byte characters; tables for locales with multi-byte characters too
+            for l in ["de_DE", "de", "en_us", "en", "a_b", "a", "é_FR", "é", "日本_JP", "日本"] { if rng.chance(1, 2) { let mut kv = vec![]; let deco = *rng.pick(&["", " — kein Ziel verfügbar", " 利用可能なサーバーなし", " ✓€"]); if rng.chance(3, 4) { kv.push(("disconnect_no_target".to_string(), format!("no target [{l}]{deco}"))); } if rng.chance(3, 4) { kv.push(("disconnect_timeout".to_string(), format!("timeout [{l}]{deco}"))); } tables.push((l.to_string(), kv)); } }
             sc.real_localization = Some((rng.pick(&["en_us", "de_DE", "zz"]).to_string(), tables));
         }
         sc.steps = render(&plan, secret.is_some());
@@ -285,6 +315,8 @@ pub fn run_c10(a: &Args) {
         v.auth = Ok(gen_profile(&mut rng, &plan.claimed_name, plan.claimed_uuid));
         if rng.chance(5, 6) && !v.targets.is_empty() { let n = v.targets.len(); v.discover = Ok((0..n).collect()); v.filter = Ok((0..n).collect()); v.select = Ok(Some(rng.below(n as u64) as usize)); }
         let mut sc = scenario(&mut rng, &plan, secret.clone(), vec![], v);
+        // configured expiries up to "never" (u64::MAX): a freshly issued cookie is within every one of them
+        sc.expiry = *rng.pick(&[21600u64, 21600, 60, u64::MAX, u64::MAX - 5, 1 << 40]);
         sc.steps = render(&plan, secret.is_some());
         let o1 = exec(&sc);
         let f = facts(&sc, &plan, true);
@@ -303,6 +335,8 @@ pub fn run_c10(a: &Args) {
             let o2 = exec(&sc2);
             let f2 = facts(&sc2, &plan2, true);
             let mut why2 = oracle::c02(&f2, &o2);
+            // cookie issuing rules hold on the cookie-authenticated connection too (no new auth cookie; session cookie iff none presented)
+            why2.extend(oracle::c10(&f2, &o2));
             let p = sc.verdicts.auth.as_ref().unwrap();
             match oracle::sends(&o2).iter().find(|p| matches!(p, crate::conn::decode::CbPacket::EncRequest { .. })) {
                 Some(crate::conn::decode::CbPacket::EncRequest { should_auth, .. }) => if *should_auth { why2.push("the cookie issued on the first connection was not accepted on the next transfer".into()); },
@@ -391,7 +425,7 @@ pub fn run_c07(a: &Args) {
         match timeout_at {
             Some(t) => {
                 if o.result != "err:missed-keep-alive" { why.push(format!("Keep Alive #{} left unechoed ({:?}) until the next was due, yet the run ended with {}", bad_at.unwrap() + 1, bad_kind, o.result)); }
-                match last { Some((P::Disconnect(text), at)) => { if *at > t + 100 || *at + 100 < t { why.push(format!("timeout Disconnect at {at} ms, due at {t} ms")); } if text != b"disconnect_timeout|".iter().chain(plan.locale.as_bytes()).copied().collect::<Vec<u8>>().as_slice() && tci + 100 < t { why.push("timeout Disconnect is not the localized timeout message".into()); } }
+                match last { Some((P::Disconnect(text), at)) => { if *at > t + 100 || *at + 100 < t { why.push(format!("timeout Disconnect at {at} ms, due at {t} ms")); } if text != sc.verdicts.loc_answer(Some(&plan.locale), "disconnect_timeout").unwrap().as_bytes() && tci + 100 < t { why.push("timeout Disconnect is not the localized timeout message".into()); } }
                     other => why.push(format!("no timeout Disconnect (last packet {:?})", other.map(|x| x.0.canonical().chars().take(30).collect::<String>()))) }
             }
             None => {
